@@ -14,7 +14,8 @@ from vf.core.state import digest
 
 ID = "C20"
 RULE = (
-    "for each base mesh: variants = {same, rebuilt, copy()} + every single-entry perturbation of lon, lat, "
+    "for each base mesh: variants = {same, rebuilt, copy()} + every single-entry perturbation of lon, lat (by 0.25 deg; and by one ulp, 1e-9, 1e-6 deg), "
+    "the plain variants again with lazily derived quantities materialised on one side only (edge tables / node_face / everything), "
     "face-node table (to another valid node; to fill), +1 node, +1/-1 face, other source spec; all ordered pairs "
     "(i, j) are compared; non-trivial = pairs whose two members differ in exactly one component or are equal-by-content "
     "but distinct objects; distinct = (base, i, j)"
@@ -67,7 +68,34 @@ def variants(mesh):
         out.append(({"v": "face-1"}, S, lon, lat, tab[:-1]))
     out.append(({"v": "width+1"}, S, lon, lat, np.hstack([tab, np.full((tab.shape[0], 1), FILL, dtype=tab.dtype)])))
     out.append(({"v": "spec"}, "Other Spec", lon, lat, tab))
+    # --- extras (paired with every variant, but not all-pairs among themselves) -----------------
+    # tiny coordinate perturbations: one ulp, 1e-9 and 1e-6 degrees
+    for i in range(len(lon)):
+        for tag, f in (("ulp", lambda x: np.nextafter(x, 1000.0)), ("1e-9", lambda x: x + 1e-9), ("1e-6", lambda x: x - 1e-6)):
+            l2 = lon.copy()
+            l2[i] = f(l2[i])
+            if l2[i] != lon[i]:
+                out.append(({"v": "lon-tiny", "i": i, "by": tag, "extra": True}, S, l2, lat, tab))
+            l3 = lat.copy()
+            l3[i] = f(l3[i])
+            if l3[i] != lat[i]:
+                out.append(({"v": "lat-tiny", "i": i, "by": tag, "extra": True}, S, lon, l3, tab))
+    # same content, but with lazily derived quantities materialised on this object before comparing
+    for mat in MATS:
+        out.append(({"v": "rebuilt", "mat": mat, "extra": True}, S, lon.copy(), lat.copy(), tab.copy()))
+        out.append(({"v": "copy", "mat": mat, "extra": True}, S, lon, lat, tab))
+    i0 = 0
+    l2 = lon.copy()
+    l2[i0] = l2[i0] + 0.25
+    out.append(({"v": "lon", "i": i0, "mat": "all", "extra": True}, S, l2, lat, tab))
     return out
+
+
+MATS = {
+    "edges": ["edge_node_connectivity", "face_edge_connectivity"],
+    "node_face": ["node_face_connectivity"],
+    "all": ["edge_node_connectivity", "face_edge_connectivity", "edge_face_connectivity", "node_face_connectivity", "face_face_connectivity", "node_x", "face_lon", "edge_lon", "face_areas", "n_nodes_per_face", "hole_edge_indices"],
+}
 
 
 def build(v, cache):
@@ -76,7 +104,10 @@ def build(v, cache):
 
     d, spec, lon, lat, tab = v
     if d["v"] == "copy":
-        return cache["base"].copy()
+        g = cache["base"].copy()
+        for a in MATS.get(d.get("mat"), ()):
+            getattr(g, a)
+        return g
     if spec == "User Defined Topology":
         g = ux.Grid.from_topology(lon.copy(), lat.copy(), tab.copy(), fill_value=FILL)
     else:
@@ -90,6 +121,8 @@ def build(v, cache):
         g = ux.Grid.from_dataset(ds, source_grid_spec=spec)
     if d["v"] == "base":
         cache["base"] = g
+    for a in MATS.get(d.get("mat"), ()):
+        getattr(g, a)
     return g
 
 
@@ -146,6 +179,8 @@ def run_case(case):
 
     for i, (va, ga) in enumerate(zip(vs, grids)):
         for j, (vb, gb) in enumerate(zip(vs, grids)):
+            if va[0].get("extra") and vb[0].get("extra") and not (va[0].get("mat") and vb[0].get("mat")):
+                continue  # extras are paired with every core variant (both directions) and mat x mat
             exp, comps = expected_equal(va, vb)
             trans += 2
             try:
@@ -156,6 +191,11 @@ def run_case(case):
                 continue
             key = "+".join(comps) or "none"
             axes["diff"][key] = axes["diff"].get(key, 0) + 1
+            hk = "%s|%s" % (va[0].get("mat", "-"), vb[0].get("mat", "-"))
+            axes.setdefault("materialised(a|b)", {})[hk] = axes.get("materialised(a|b)", {}).get(hk, 0) + 1
+            if va[0].get("by") or vb[0].get("by"):
+                tk = va[0].get("by") or vb[0].get("by")
+                axes.setdefault("tiny_perturbation", {})[tk] = axes.get("tiny_perturbation", {}).get(tk, 0) + 1
             outcomes.append(digest((i, j, bool(eq), bool(ne))))
             if len(comps) <= 1 and i != j:
                 nontrivial.append("%s:%d:%d" % (case["base"] + "|" + str(case.get("other")), i, j))
@@ -164,12 +204,12 @@ def run_case(case):
             if bool(eq) != exp:
                 rec(
                     "eq-definition",
-                    "eq:expected=%s:diff=%s" % (exp, key),
+                    "eq:expected=%s:diff=%s%s" % (exp, key, (":tiny-" + (va[0].get("by") or vb[0].get("by"))) if (va[0].get("by") or vb[0].get("by")) else ""),
                     "grids %r and %r differ in {%s}; == returned %s, definition says %s" % (va[0], vb[0], key, eq, exp),
                     {"i": va[0], "j": vb[0]},
                 )
             if bool(ne) != (not bool(eq)):
-                rec("ne-negation", "ne:not-negation:diff=%s" % key, "%r != %r returned %s while == returned %s" % (va[0], vb[0], ne, eq), {"i": va[0], "j": vb[0]})
+                rec("ne-negation", "ne:not-negation:diff=%s:mat=%s" % (key, hk), "%r != %r returned %s while == returned %s" % (va[0], vb[0], ne, eq), {"i": va[0], "j": vb[0]})
     # symmetry
     for i in range(len(vs)):
         for j in range(i + 1, len(vs)):
